@@ -72,7 +72,8 @@ class SenderStream(Monitor):
 
     P = "C07"
 
-    def __init__(self, w, expect_complete_on_idle: bool = True):
+    def __init__(self, w, expect_complete_on_idle: bool = True, prefix: str = "C07"):
+        self.P = prefix
         c = w.cfg
         self.size = len(w.src_bytes)
         self.data = w.src_bytes
@@ -99,7 +100,7 @@ class SenderStream(Monitor):
         n_fd = 0
         for em in rec.emitted:
             if em.pdu is None:
-                w.violate("C07.parsable", f"kind=?? len={len(em.raw)}", em.raw.hex()[:60])
+                w.violate(self.P + ".parsable", f"kind=?? len={len(em.raw)}", em.raw.hex()[:60])
                 continue
             pdu = em.pdu
             k = em.kind
@@ -109,60 +110,60 @@ class SenderStream(Monitor):
                 self.tid = tid_of(pdu)
                 self.hdr = h
             if tid_of(pdu) != self.tid:
-                w.violate("C07.same_tid", f"{k}", f"{tid_of(pdu)} vs {self.tid}")
+                w.violate(self.P + ".same_tid", f"{k}", f"{tid_of(pdu)} vs {self.tid}")
             if h[3][1] != h[4][1]:
-                w.violate("C07.id_width", f"{k} src={h[3][1]} dst={h[4][1]}", "")
+                w.violate(self.P + ".id_width", f"{k} src={h[3][1]} dst={h[4][1]}", "")
             if h[1] != int(c.mode):
-                w.violate("C07.mode", f"{k} mode={h[1]}", "")
+                w.violate(self.P + ".mode", f"{k} mode={h[1]}", "")
             if h[2] != int(c.crc):
-                w.violate("C07.crc_flag", f"{k} crc={h[2]} want={int(c.crc)}", "")
+                w.violate(self.P + ".crc_flag", f"{k} crc={h[2]} want={int(c.crc)}", "")
             if h[0] != 0:  # everything the file sender emits travels towards the receiver
-                w.violate("C07.direction", f"{k} dir={h[0]}", "")
+                w.violate(self.P + ".direction", f"{k} dir={h[0]}", "")
             if h[5][1] != c.seqw:
-                w.violate("C07.seq_width", f"{k} {h[5][1]} want={c.seqw}", "")
+                w.violate(self.P + ".seq_width", f"{k} {h[5][1]} want={c.seqw}", "")
             try:
                 again = bytes(pdu.pack())
             except Exception as e:  # noqa: BLE001
                 again = None
-                w.violate("C07.roundtrip", f"{k} repack {type(e).__name__}", "")
+                w.violate(self.P + ".roundtrip", f"{k} repack {type(e).__name__}", "")
             if again is not None and again != em.raw:
-                w.violate("C07.roundtrip", f"{k}", f"{em.raw.hex()[:40]} vs {again.hex()[:40]}")
+                w.violate(self.P + ".roundtrip", f"{k}", f"{em.raw.hex()[:40]} vs {again.hex()[:40]}")
             if k in ("FD", "EOF", "ACK") and len(em.raw) > c.mpl:
-                w.violate("C07.max_packet_len", f"{k} len={len(em.raw)} mpl={c.mpl}", "")
+                w.violate(self.P + ".max_packet_len", f"{k} len={len(em.raw)} mpl={c.mpl}", "")
             if em.obj_len != len(em.raw):
-                w.violate("C07.packet_len_property", f"{k} {em.obj_len} vs {len(em.raw)}", "")
+                w.violate(self.P + ".packet_len_property", f"{k} {em.obj_len} vs {len(em.raw)}", "")
             # stream clauses
             if self.first:
                 self.first = False
                 if k != "MD":
-                    w.violate("C07.first_is_metadata", f"first={k}", "")
+                    w.violate(self.P + ".first_is_metadata", f"first={k}", "")
             if k == "MD":
                 inf = em.info
                 if c.metadata_only:
                     if inf[5] != c.closure:
-                        w.violate("C07.metadata_fields", f"md_only closure={inf[5]}", "")
+                        w.violate(self.P + ".metadata_fields", f"md_only closure={inf[5]}", "")
                 else:
                     want = ("MD", self.size, w.src_path, w.dst_req, int(c.ck), c.closure)
                     if inf[:6] != want:
-                        w.violate("C07.metadata_fields", _diff(inf[:6], want), f"{inf} vs {want}")
+                        w.violate(self.P + ".metadata_fields", _diff(inf[:6], want), f"{inf} vs {want}")
                 if self.md_raw is None:
                     self.md_raw = em.raw
                 elif em.raw != self.md_raw:
-                    w.violate("C07.metadata_resend_identical", "", "")
+                    w.violate(self.P + ".metadata_resend_identical", "", "")
             elif k == "FD":
                 off, ln = em.info[1], em.info[2]
                 body = bytes(pdu.file_data)
                 if ln > self.seg:
-                    w.violate("C07.segment_len", f"len={ln} seg={self.seg}", f"off={off}")
+                    w.violate(self.P + ".segment_len", f"len={ln} seg={self.seg}", f"off={off}")
                 if off + ln > self.size or body != self.data[off : off + ln]:
-                    w.violate("C07.file_bytes", f"off+len>size={off + ln > self.size}", f"off={off} len={ln}")
+                    w.violate(self.P + ".file_bytes", f"off+len>size={off + ln > self.size}", f"off={off} len={ln}")
                 if nak_in:
                     continue  # retransmission: judged by C08; here only the generic clauses
                 n_fd += 1
                 if self.eof_seen or self.cancelled:
                     # after EOF (or cancel) nothing original may follow
                     if off >= self.next and not nak_in:
-                        w.violate("C07.no_data_after_eof", f"off={off} next={self.next}", "")
+                        w.violate(self.P + ".no_data_after_eof", f"off={off} next={self.next}", "")
                     continue
                 if off != self.next:
                     if off < self.next:
@@ -170,30 +171,30 @@ class SenderStream(Monitor):
                         # works today; tolerated: it is inside what was sent)
                         w.probe("C07.late_retransmission")
                         continue
-                    w.violate("C07.tiling", f"off={off} expected={self.next}", "")
+                    w.violate(self.P + ".tiling", f"off={off} expected={self.next}", "")
                 want_len = min(self.seg, self.size - off)
                 if ln != want_len:
-                    w.violate("C07.tiling", f"len={ln} want={want_len}", f"off={off}")
+                    w.violate(self.P + ".tiling", f"len={ln} want={want_len}", f"off={off}")
                 self.next = off + ln
                 self.tiles += 1
             elif k == "EOF":
                 cond = em.info[1]
                 if cond == 0:
                     if self.next != self.size and not c.metadata_only:
-                        w.violate("C07.eof_after_all_data", f"next={self.next} size={self.size}", "")
+                        w.violate(self.P + ".eof_after_all_data", f"next={self.next} size={self.size}", "")
                     if em.info[2] != self.size:
-                        w.violate("C07.eof_size", f"eof={em.info[2]} size={self.size}", "")
+                        w.violate(self.P + ".eof_size", f"eof={em.info[2]} size={self.size}", "")
                     if em.info[3] != ref_checksum(int(c.ck), self.data).hex():
-                        w.violate("C07.eof_checksum", f"ck={c.ck.name}", f"{em.info[3]}")
+                        w.violate(self.P + ".eof_checksum", f"ck={c.ck.name}", f"{em.info[3]}")
                     self.eof_seen = True
                 else:
                     self.cancel_eof = True
         if n_fd > 1:
-            w.violate("C07.one_fd_per_call", f"n={n_fd}", "")
+            w.violate(self.P + ".one_fd_per_call", f"n={n_fd}", "")
 
     def on_end(self, w) -> None:
         if self.eof_seen and self.next != self.size:
-            w.violate("C07.complete", f"next={self.next} size={self.size}", "")
+            w.violate(self.P + ".complete", f"next={self.next} size={self.size}", "")
 
 
 def _diff(a, b) -> str:
